@@ -6,6 +6,7 @@ mod oracle;
 mod problem;
 mod solve;
 mod seams;
+mod jets;
 mod props;
 
 fn main() {
